@@ -5,6 +5,7 @@ go 1.22
 require (
 	github.com/caddyserver/caddy/v2 v2.8.4
 	github.com/gr33nbl00d/caddy-revocation-validator v0.0.0
+	github.com/muesli/cache2go v0.0.0-20221011235721-518229cd8021
 	github.com/syndtr/goleveldb v1.0.0
 	go.uber.org/zap v1.27.0
 	golang.org/x/crypto v0.23.0
@@ -60,7 +61,6 @@ require (
 	github.com/mitchellh/copystructure v1.2.0 // indirect
 	github.com/mitchellh/go-ps v1.0.0 // indirect
 	github.com/mitchellh/reflectwalk v1.0.2 // indirect
-	github.com/muesli/cache2go v0.0.0-20221011235721-518229cd8021 // indirect
 	github.com/pkg/errors v0.9.1 // indirect
 	github.com/prometheus/client_golang v1.19.1 // indirect
 	github.com/prometheus/client_model v0.5.0 // indirect
